@@ -457,8 +457,31 @@ def lib_sweep(real, seed):
             v = gpytorch.mlls.ExactMarginalLogLikelihood(l, m)(m(x), y)
             m.eval(); l.eval()
             return v
-        return {"evaluate-lazy-kernel": lambda: lazy.to_dense(), "exact-predict": lambda: m(xs).variance, "heteroskedastic-noise": hetero,
-                "fantasy": lambda: (m(xs), m.get_fantasy_model(xs[:1], y[:1]))[1](xs).mean, "exact-mll": objective, "svgp-call": lambda: sv(xs).variance}
+        ops = {"evaluate-lazy-kernel": lambda: lazy.to_dense(), "exact-predict": lambda: m(xs).variance, "heteroskedastic-noise": hetero,
+               "fantasy": lambda: (m(xs), m.get_fantasy_model(xs[:1], y[:1]))[1](xs).mean, "exact-mll": objective, "svgp-call": lambda: sv(xs).variance}
+        # every kernel class: an object CONSTRUCTED in one settings context and called in another (full matrix, diagonal request, bare forward)
+        K = gpytorch.kernels
+        xu = torch.rand(4, 2, dtype=torch.float64) * 0.6 - 0.3
+        zoo = {"RBF": lambda: K.RBFKernel(), "Matern": lambda: K.MaternKernel(nu=1.5), "RQ": lambda: K.RQKernel(), "Periodic": lambda: K.PeriodicKernel(),
+               "Cosine": lambda: K.CosineKernel(), "Linear": lambda: K.LinearKernel(), "Polynomial": lambda: K.PolynomialKernel(power=2),
+               "PiecewisePolynomial": lambda: K.PiecewisePolynomialKernel(q=1), "SpectralMixture": lambda: K.SpectralMixtureKernel(num_mixtures=2, ard_num_dims=2),
+               "Cylindrical": lambda: K.CylindricalKernel(num_angular_weights=2, radial_base_kernel=K.MaternKernel(nu=2.5)),
+               "Scale(RBF)": lambda: K.ScaleKernel(K.RBFKernel()), "RBF+Matern": lambda: K.RBFKernel() + K.MaternKernel(nu=0.5), "RBF*Linear": lambda: K.RBFKernel() * K.LinearKernel(),
+               "RBFGrad": lambda: K.RBFKernelGrad(), "Multitask(RBF)": lambda: K.MultitaskKernel(K.RBFKernel(), num_tasks=2, rank=1),
+               "GridInterpolation": lambda: K.GridInterpolationKernel(K.RBFKernel(), grid_size=8, num_dims=2, grid_bounds=[(-1.0, 1.0)] * 2),
+               "InducingPoint": lambda: K.InducingPointKernel(K.RBFKernel(), inducing_points=xu[:2].clone(), likelihood=gpytorch.likelihoods.GaussianLikelihood().double()),
+               "RFF": lambda: K.RFFKernel(num_samples=4, num_dims=2), "AdditiveStructure": lambda: K.AdditiveStructureKernel(K.RBFKernel(), num_dims=2)}
+        for kn, mkk in sorted(zoo.items()):
+            try:
+                kk = mkk().double()
+                kk.eval()
+            except Exception:
+                continue
+            ops["kernel:%s:dense" % kn] = (lambda kk=kk: kk(xu).to_dense())
+            ops["kernel:%s:diag" % kn] = (lambda kk=kk: kk(xu, diag=True))
+            ops["kernel:%s:forward-diag" % kn] = (lambda kk=kk: kk.forward(xu, xu, diag=True))
+            ops["kernel:%s:cross" % kn] = (lambda kk=kk: kk(xu[:2], xu[2:]).to_dense())
+        return ops
 
     blocks = [None]
     for n, e in sorted(real.entries.items()):
@@ -494,6 +517,29 @@ def lib_sweep(real, seed):
                 n0 = changed[0]
                 r.update(ok=False, sig=r["sig"] + "/" + n0, detail="library operation %s inside `with %s(%s)`: %s read %r before and %r after the operation" % (
                     opname, blk[0] if blk else "-", blk[1] if blk else "", n0, before[n0], after[n0]))
+            out.append(r)
+    # the other direction: library objects CONSTRUCTED inside a user block and used after it (outside all blocks): every setting reads its
+    # default before and after every operation
+    for blk in blocks[1:]:
+        with real.construct(blk[0], blk[1], rnd):
+            ops = mk_ops()
+        names = sorted(real.entries)
+        for opname, fn in sorted(ops.items()):
+            r = dict(key=["lib-built-inside", opname, list(blk)], ok=True, nontrivial=True, sig="C20/library-object-built-inside-a-block/%s" % opname,
+                     case=dict(lib=opname, block=blk, built_inside=True))
+            before = {n: real.observe(n) for n in names}
+            try:
+                fn()
+            except Exception:
+                pass
+            after = {n: real.observe(n) for n in names}
+            changed = [n for n in names if not same(before[n], after[n])]
+            if changed:
+                n0 = changed[0]
+                r.update(ok=False, sig=r["sig"] + "/" + n0, detail="library object built inside `with %s(%s)` and used after the block: operation %s changed %s from %r to %r" % (
+                    blk[0], blk[1], opname, n0, before[n0], after[n0]))
+                out.append(r)
+                continue
             out.append(r)
     bad = real.all_defaults()
     if bad:
